@@ -170,7 +170,9 @@ STORING = {  # classes that store a bin at construction -> builder(it, S, layout
 # layouts: own start on a level-17 boundary (a 1-based convention or a start-1 shift changes the level), a block across a
 # level-17 boundary, two blocks in different level-17 bins; the chunk offset makes chunk-relative coordinates fall into
 # other bins than chromosome coordinates
-R1_LAYOUTS = [[(262144, 262244)], [(393116, 393316)], [(262100, 262200), (393000, 393300)], [(300000, 301900)]]
+R1_LAYOUTS = [[(262144, 262244)], [(393116, 393316)], [(262100, 262200), (393000, 393300)], [(300000, 301900)],
+              # two members that each sit inside one level-17 bin, in different bins: the container's bin is one level up
+              [(140000, 140100), (270000, 270100)]]
 R1_CHUNK = (250000, 400000)
 
 
@@ -252,7 +254,7 @@ def r1_call_sites(ctx):
                 for x in ast.walk(t):
                     if isinstance(x, ast.Attribute) and x.attr == "bin" and dotted(x.value) == "self" and fn.cls is not None:
                         storing.add(fn.cls.name)
-    r.floor("C16.R1", "bins() call sites", sites, 7)
+    r.note(f"C16.R1: {sites} bins() call sites outside util.bins")
     unknown = storing - set(STORING)
     if unknown:
         r.error(f"C16.R1: classes {sorted(unknown)} assign self.bin and have no builder in the checker: the stored-bin rule does not cover them")
